@@ -568,7 +568,43 @@ func (c *Checker) MustPass(target *ssa.BasicBlock, atoms []Atom) (bool, []string
 
 // Undecided reports whether the last search hit the state bound.
 func (c *Checker) search(target *ssa.BasicBlock, atoms []Atom) (bool, []*ssa.BasicBlock, bool) {
+	return c.searchMode(target, atoms, false)
+}
+
+// MustAvoid: no feasible path entry -> target traverses an edge on which one of the atoms holds
+// (e.g. "the element is appended only when no earlier element equals it").
+func (c *Checker) MustAvoid(target *ssa.BasicBlock, atoms []Atom) (bool, []string) {
+	ok, path, bound := c.searchMode(target, atoms, true)
+	if ok {
+		return true, nil
+	}
+	if bound {
+		return false, []string{StateBound}
+	}
+	return false, c.RenderPath(path)
+}
+
+func (c *Checker) searchMode(target *ssa.BasicBlock, atoms []Atom, avoid bool) (bool, []*ssa.BasicBlock, bool) {
 	cut := c.directCut(atoms)
+	// avoid mode: "within one iteration of the loop that holds the target"
+	var iterHdr *ssa.BasicBlock
+	if avoid {
+		loops := cfgx.Loops(c.Fn)
+		for b := target; b != nil && iterHdr == nil; b = b.Idom() {
+			var best *cfgx.Loop
+			for _, l := range loops {
+				if l.Body[b] && (best == nil || len(l.Body) < len(best.Body)) {
+					best = l
+				}
+			}
+			if best != nil {
+				iterHdr = best.Header
+			}
+		}
+		if len(cut) == 0 {
+			return false, nil, false // nothing to avoid: the rule would pass vacuously
+		}
+	}
 	tr := c.tracked()
 	order := map[ssa.Value]int{}
 	for _, b := range c.Fn.Blocks {
@@ -589,6 +625,7 @@ func (c *Checker) search(target *ssa.BasicBlock, atoms []Atom) (bool, []*ssa.Bas
 		eqc  map[string]string // term -> constant it equals on this path
 		nec  map[string]string // term -> "|c1|c2|" constants it differs from
 		prev *node
+		bad  bool // avoid mode: the path has traversed a forbidden edge
 	}
 	factKey := func(eqc, nec map[string]string) string {
 		if len(eqc) == 0 && len(nec) == 0 {
@@ -611,7 +648,7 @@ func (c *Checker) search(target *ssa.BasicBlock, atoms []Atom) (bool, []*ssa.Bas
 	for len(q) > 0 {
 		n := q[0]
 		q = q[1:]
-		if n.b == target {
+		if n.b == target && (!avoid || n.bad) {
 			var rev []*ssa.BasicBlock
 			for x := n; x != nil; x = x.prev {
 				rev = append(rev, x.b)
@@ -627,8 +664,12 @@ func (c *Checker) search(target *ssa.BasicBlock, atoms []Atom) (bool, []*ssa.Bas
 		iff := cfgx.IfOf(n.b)
 		for si, s := range n.b.Succs {
 			e := cfgx.Edge{From: n.b, To: s}
+			nbad := n.bad
 			if cut[e] {
-				continue
+				if !avoid {
+					continue
+				}
+				nbad = true
 			}
 			nv := valuation{}
 			for k, x := range n.val {
@@ -757,12 +798,19 @@ func (c *Checker) search(target *ssa.BasicBlock, atoms []Atom) (bool, []*ssa.Bas
 			}
 			// a φ that merely copies a computed boolean: when that boolean, being true/false, establishes an atom,
 			// the decision is taken at the test of the φ (handled below through aliasCut)
-			ps := pstate{s, nv.key(order) + "#" + factKey(neq, nne)}
+			if s == iterHdr {
+				nbad = false
+			}
+			bk := ""
+			if nbad {
+				bk = "!"
+			}
+			ps := pstate{s, nv.key(order) + "#" + factKey(neq, nne) + bk}
 			if seen[ps] {
 				continue
 			}
 			seen[ps] = true
-			q = append(q, &node{b: s, val: nv, eqc: neq, nec: nne, prev: n})
+			q = append(q, &node{b: s, val: nv, eqc: neq, nec: nne, prev: n, bad: nbad})
 		}
 	}
 	return true, nil, false
